@@ -33,4 +33,6 @@ def step (s : State) (op : List String) : State × String :=
 
 def model : Model State := { init := init, step := exact step }
 
+def entries : List (String × IO UInt32) := [("C08", runModel model)]
+
 end GmQuic.Drv.C08
